@@ -43,6 +43,8 @@ where
 pub(in super::super) struct BlockReader<'r, 's, R> {
 	current_block_len: usize,
 	n_read: usize,
+	/// Whether we have read the end-of-blocks marker
+	finished: bool,
 	reader: &'r mut DeserializerState<'s, R>,
 	allowed_depth: AllowedDepth,
 	/// Represents whether we were hinted deserialize_ignored_any. If yes, we
@@ -59,6 +61,7 @@ impl<'r, 's, R> BlockReader<'r, 's, R> {
 			reader,
 			current_block_len: 0,
 			n_read: 0,
+			finished: false,
 			allowed_depth,
 			ignored: hinted_ignored,
 		}
@@ -67,11 +70,17 @@ impl<'r, 's, R> BlockReader<'r, 's, R> {
 	where
 		R: ReadSlice<'de>,
 	{
+		if self.finished {
+			return Ok(false);
+		}
 		self.current_block_len = match self.current_block_len.checked_sub(1) {
 			None => {
 				let new_len = read_block_len(self.reader, self.ignored)?;
 				match new_len {
-					None => return Ok(false),
+					None => {
+						self.finished = true;
+						return Ok(false);
+					}
 					Some(new_len) => {
 						let l = new_len.get();
 						let n_read = self.n_read.saturating_add(l);
@@ -89,13 +98,43 @@ impl<'r, 's, R> BlockReader<'r, 's, R> {
 		};
 		Ok(true)
 	}
+	/// Consumes the end-of-blocks marker if it was not read yet, errors if there
+	/// are elements left
+	fn expect_end<'de>(&mut self) -> Result<(), DeError>
+	where
+		R: ReadSlice<'de>,
+	{
+		if self.has_more()? {
+			Err(DeError::new(
+				"Array has more elements than what it is being deserialized into",
+			))
+		} else {
+			Ok(())
+		}
+	}
 }
 
 pub(in super::super) struct ArraySeqAccess<'r, 's, R> {
 	pub(in super::super) block_reader: BlockReader<'r, 's, R>,
 	pub(in super::super) elements_schema: &'s SchemaNode<'s>,
 }
-impl<'de, R: ReadSlice<'de>> SeqAccess<'de> for ArraySeqAccess<'_, '_, R> {
+impl<'de, R: ReadSlice<'de>> ArraySeqAccess<'_, '_, R> {
+	/// Have the visitor visit the array, then make sure that the array was read
+	/// up to and including its end-of-blocks marker
+	///
+	/// Visitors of fixed-length types (tuples, `[T; N]`...) stop asking for
+	/// elements once they have enough of them, which would otherwise leave the
+	/// rest of the array to be read as whatever comes next.
+	pub(in super::super) fn visit<V>(mut self, visitor: V) -> Result<V::Value, DeError>
+	where
+		V: Visitor<'de>,
+	{
+		let value = visitor.visit_seq(&mut self)?;
+		self.block_reader.expect_end()?;
+		Ok(value)
+	}
+}
+impl<'de, R: ReadSlice<'de>> SeqAccess<'de> for &mut ArraySeqAccess<'_, '_, R> {
 	type Error = DeError;
 
 	fn next_element_seed<T>(&mut self, seed: T) -> Result<Option<T::Value>, Self::Error>
